@@ -142,6 +142,11 @@ func ReadFile(r io.Reader) (File, []string, error) {
 		nextCommentLines = []string{}
 		nextRecordOpCode = 0
 	}
+	// Next returns false at the end of the input, but also when the tokenizer
+	// gave up: only the former is success.
+	if err := tr.Err(); err != nil {
+		return f, warnings, err
+	}
 	return f, warnings, nil
 }
 
